@@ -993,3 +993,46 @@ func checkC01ManyDistinct(c *Ctx) {
 		}
 	})
 }
+
+// Values by origin: every way a value comes into being (a for-in character / key / element / index, a
+// pattern-bound name, a parameter, a call result, a member of $ or of a literal, an element of split / sort /
+// pluck results, an operator result) x every method, member read and index read on it.
+func checkC01ValuesByOrigin(c *Ctx) {
+	pool := c.Pool()
+	// %s: a statement using V
+	origins := []string{
+		"for (V in \"abc\") {\n    %s\n  }", "for (V in \"hé\") {\n    %s\n  }", "for (q, V in \"ab\") {\n    %s\n  }", "for (V in {k: 1, j: \"s\"}) {\n    %s\n  }", "for (q, V in {k: [1], j: \"s\"}) {\n    %s\n  }",
+		"for (V in [1, \"s\", [2], {a: 1}, null, true]) {\n    %s\n  }", "for (q, V in [5, 6]) {\n    %s\n  }", "for (V in $) {\n    %s\n  }", "for (q, V in $.o) {\n    %s\n  }",
+		"r0 = match ($.s) { V => {\n    %s\n  } }", "r0 = match ([1, \"s\"]) { [q, V] => {\n    %s\n  } }", "r0 = match ($.nope) { V => {\n    %s\n  } }",
+		"V = idf($.s)\n  %s", "V = idf($.l)\n  %s", "V = idf()\n  %s", "V = $.s\n  %s", "V = $.l[1]\n  %s", "V = $.o.k\n  %s", "V = $.nope.deeper\n  %s", "V = \"a,b\".split(\",\")[0]\n  %s", "V = [3, 1].sort()\n  %s",
+		"V = {k: \"v\"}.pluck(\"k\")\n  %s", "V = {k: \"v\"}.pluck(\"k\").k\n  %s", "V = (1 < 2)\n  %s", "V = (\"a\" + 1)\n  %s", "V = -1\n  %s", "V = \"x\".upper\n  %s", "V = [1].length\n  %s", "V = num\n  %s",
+		"V = json([1])\n  %s", "V = num(\"12\")\n  %s", "V = $index\n  %s", "V = $file\n  %s", "V = [1].pop()\n  %s", "V = [].pop()\n  %s", "V = \"abc\"[1]\n  %s", "V = \"abc\"[7]\n  %s", "V = /re/\n  %s",
+	}
+	uses := []string{"r = V.upper()", "r = V.lower()", "r = V.length()", "r = V.split(\"\")", "r = V.split(\",\")", "r = V.push(1)", "r = V.pop()", "r = V.popfirst()", "r = V.sort()", "r = V.contains(1)", "r = V.pluck(\"k\")",
+		"r = V.floor()", "r = V.ceil()", "r = V.round()", "r = V[\"lower\"]()", "r = V[0]", "r = V.k", "r = V[0 - 1]", "r = V()", "r = V(1)", "V.z = 1", "V[0] = 1", "V++", "r = json(V)", "r = num(V)", "printf(\"%s %v\\n\", V, V)",
+		"r = V ~ \"a\"", "r = V + 1", "r = V is string", "for (w in V) { }"}
+	var jobs []Job
+	n := 0
+	for _, o := range origins {
+		for _, u := range uses {
+			n++
+			if !c.Thorough() && n%2 != int(c.Seed)%2 {
+				continue
+			}
+			st := strings.ReplaceAll(fmt.Sprintf(o, u), "V", "vv")
+			prog := "function idf(a) {\n  return a\n}\n{\n  " + st + "\n  print r\n}\n"
+			jobs = append(jobs, Job{Kind: "run", Prog: []byte(prog), Files: []FileIn{{Name: "in.json", Data: []byte(`[{"s":"str","l":[1,"two"],"o":{"k":"v","n":2}}]`)}}, Budget: 100000, Tag: st})
+		}
+	}
+	pool.Map(jobs, func(i int, r Result) {
+		switch r.Class {
+		case "ok", "runtime", "syntax":
+			c.Case("origin:"+jobs[i].Tag, r.Class != "syntax")
+		case "budget", "timeout":
+			c.Count("inconclusive", 1)
+		default:
+			c.Violation("value-origin-"+r.Class, map[string]any{"statement": jobs[i].Tag, "program": string(jobs[i].Prog), "got_class": r.Class, "got_err": r.ErrMsg, "detail": firstN(r.Detail, 1500),
+				"why": "a method call, member read or index on a value must succeed or fail with a runtime error, however the value came into being"})
+		}
+	})
+}
